@@ -38,4 +38,11 @@ CHECKS = {
         technique="runtime monitoring: history workload with file-hash + per-site change-flag monitors (idempotence oracle)",
         ref="DESIGN.md section 4 C08",
     ),
+    "C09": dict(
+        level="exploration",
+        text="For generated recording-style programs with k>=2 pending categories (taken from a no-flag run of the real code) every one of the k! orders of successive single-category runs is executed and its final module is compared (ast.dump) with the result of the single combined run. Exploration over programs; for each explored program the set of orders is enumerated completely (k<=4, <=24 orders).",
+        note="In-process histories. The plugin's cumulative virtual application in review mode is exercised by C04's review sessions.",
+        technique="runtime monitoring: history workload (all permutations of single-category runs) with AST-equality oracle on final files",
+        ref="DESIGN.md section 4 C09",
+    ),
 }
